@@ -222,6 +222,9 @@ async def watcher(
                 streams[key] = Stream(backlog=asyncio.Queue(), pressure=asyncio.Event())
                 streams[key].pressure.set()  # interrupt current sleeps, if any.
                 await streams[key].backlog.put(raw_event)
+                if veriftrace.enabled:
+                    veriftrace.emit('q.new', res=resource.plural, uid=key[1], rv=get_version(raw_event),
+                                    type=raw_event.get('type'), qlen=streams[key].backlog.qsize())
                 await scheduler.spawn(
                     name=f'worker for {key}',
                     coro=worker(
@@ -233,9 +236,6 @@ async def watcher(
                         streams=streams,
                         key=key,
                     ))
-                if veriftrace.enabled:
-                    veriftrace.emit('q.new', res=resource.plural, uid=key[1], rv=get_version(raw_event),
-                                    type=raw_event.get('type'), present=key in streams)
 
     except asyncio.CancelledError:
         if worker_error is None:
